@@ -53,6 +53,7 @@ class RT:
         self.nlocks = 0
         self.moves = 0           # number of log entries by anybody (for the yield gate)
         self.frozen = False
+        self.nevents = 0
         self.tpos = 0            # position in ctl.trace up to which time jumps were copied to the log
 
     def ev(self, *e):
@@ -285,6 +286,83 @@ class JFuture(gate.GFuture):
         return gate.cf.Future.result(self, timeout)
 
 
+class WCtl(gate.Ctl):
+    """Controller with a real-time watchdog: a managed thread that keeps the baton for
+    more than `patience` seconds (it blocks in a primitive the harness does not gate) ends
+    the run with the verdict 'hang' instead of hanging the check."""
+    patience = 4.0
+
+    def run(self):
+        import time
+        step = 0
+        while True:
+            with self.cv:
+                t0 = time.monotonic()
+                while self.turn is not None:
+                    self.cv.wait(0.25)
+                    if self.turn is not None and time.monotonic() - t0 > self.patience:
+                        self.hung = self.turn
+                        self.result = 'hang'
+                        return self.result
+                live = [n for n in self.order if self.th[n]['state'] != 'done']
+                if not live:
+                    self.result = 'ok'
+                    return self.result
+                en = [n for n in live if self.th[n]['enabled']()]
+                if not en:
+                    whens = [w for w in (self.th[n]['when']() for n in live if self.th[n]['when']) if w is not None]
+                    if not whens:
+                        self.result = 'deadlock'
+                        return self.result
+                    self.vt = max(self.vt, min(whens))
+                    self.trace.append(('adv', self.ticks()))
+                    continue
+                if step >= self.max_steps:
+                    self.result = 'steps'
+                    return self.result
+                n = self.chooser(step, en, self)
+                if n not in en:
+                    n = en[0]
+                self.choices.append((list(en), n))
+                self.trace.append((n, self.th[n]['op']))
+                step += 1
+                self.turn = n
+                self.cv.notify_all()
+
+    def abort(self):
+        with self.cv:
+            self.aborting = True
+            self.cv.notify_all()
+        for n in self.order:
+            self.th[n]['thread'].join(0.05 if getattr(self, 'hung', None) else 2.0)
+
+
+class GEvent:
+    """threading.Event with gates (only used when the library under test has one)."""
+
+    def __init__(self, rt):
+        self.rt, self.flag = rt, False
+        rt.nevents += 1
+        self.eid = rt.nevents
+
+    def is_set(self):
+        return self.flag
+
+    def set(self):
+        self.rt.ctl.gate('ev.set')
+        self.flag = True
+        self.rt.ev(self.rt.me(), 'evset', self.eid)
+
+    def clear(self):
+        self.flag = False
+
+    def wait(self, timeout=None):
+        if not self.flag:
+            self.rt.ctl.gate('ev.wait', enabled=lambda: self.flag)
+        self.rt.ev(self.rt.me(), 'evwait', self.eid)
+        return True
+
+
 class XFuture(gate.cf.Future):
     """concurrent future returned by the substituted run_coroutine_threadsafe: a
     blocking .result()/.exception() from a managed thread is a gate (and is logged:
@@ -339,7 +417,7 @@ def run_case(case, chooser=None, max_steps=1500):
     warnings.simplefilter('ignore')
     mode, scripts, forms = case['mode'], case['scripts'], case['forms']
     n = len(scripts)
-    ctl = gate.Ctl(chooser or gate.schedule_chooser(case.get('sched', [])), max_steps=max_steps)
+    ctl = WCtl(chooser or gate.schedule_chooser(case.get('sched', [])), max_steps=max_steps)
     rt = RT(ctl)
     L = TLoop(ctl)
     L.rt = rt
@@ -371,6 +449,9 @@ def run_case(case, chooser=None, max_steps=1500):
     A._LOOP_LOCKS = tbl
     A._LOOP_LOCKS_CREATE_LOCK = TLock(rt, 0)
     A.run_coro_ts = make_run_coro_ts(rt)
+    if getattr(A, 'Event', None) is threading.Event:       # not in the unchanged library
+        saved['Event'] = A.Event
+        A.Event = lambda: GEvent(rt)
     flags = dict(lit=False, done=0, others=0)
     aws, coros = [], []
     try:
